@@ -39,6 +39,21 @@ class ExprBuilder:
         return self.place(p)
 
     def const(self, k):
+        if "promoted" in k and isinstance(k["promoted"], int):
+            proms = self.body.fn.raw.get("promoted") or []
+            if k["promoted"] < len(proms):
+                key = ("prom", k["promoted"])
+                if key not in self.memo:
+                    from .mir import Body
+                    pb = Body(self.body.fn, proms[k["promoted"]])
+                    peb = ExprBuilder(pb)
+                    # a promoted body computes _0 (a reference to the promoted value)
+                    ds = pb.whole_defs(0)
+                    if len(ds) == 1 and ds[0][0] == "st":
+                        self.memo[key] = peb.rvalue(ds[0][3]["rv"])
+                    else:
+                        self.memo[key] = ("kx", _freeze(k))
+                return self.memo[key]
         if "v" in k:
             return ("k", k["v"], k.get("ty"), k.get("def"))
         if "s" in k:
